@@ -198,6 +198,8 @@ where
     /// assert!(a.out_degree() == 2);
     /// ```
     pub fn out_degree(&self) -> usize {
+        #[cfg(gdsl_verif)]
+        crate::verif_hook::lock_point(&self.inner.2, false, self.key());
         self.inner.2.read().unwrap().len_outbound()
     }
 
@@ -218,6 +220,8 @@ where
     ///
     /// assert!(a.in_degree() == 2);
     pub fn in_degree(&self) -> usize {
+        #[cfg(gdsl_verif)]
+        crate::verif_hook::lock_point(&self.inner.2, false, self.key());
         self.inner.2.read().unwrap().len_inbound()
     }
 
@@ -239,11 +243,15 @@ where
     /// assert!(n1.is_connected(n2.key()));
     /// ```
     pub fn connect(&self, other: &Self, value: E) {
+        #[cfg(gdsl_verif)]
+        crate::verif_hook::lock_point(&self.inner.2, true, self.key());
         self.inner
             .2
             .write()
             .unwrap()
             .push_outbound((other.clone(), value.clone()));
+        #[cfg(gdsl_verif)]
+        crate::verif_hook::lock_point(&other.inner.2, true, other.key());
         other
             .inner
             .2
@@ -314,9 +322,13 @@ where
                 // for a self-loop both are the same `RwLock`, and holding one node's
                 // lock while waiting for another's deadlocks against a concurrent
                 // `disconnect` in the opposite direction.
+                #[cfg(gdsl_verif)]
+                crate::verif_hook::lock_point(&self.inner.2, true, self.key());
                 let removed = self.inner.2.write().unwrap().remove_outbound(other.key());
                 match removed {
                     Ok(edge) => {
+                        #[cfg(gdsl_verif)]
+                        crate::verif_hook::lock_point(&other.inner.2, true, other.key());
                         other.inner.2.write().unwrap().remove_inbound(self.key())?;
                         Ok(edge)
                     }
@@ -356,6 +368,8 @@ where
     /// ```
     pub fn isolate(&self) {
         for Edge(_, v, _) in self.iter_out() {
+            #[cfg(gdsl_verif)]
+            crate::verif_hook::lock_point(&v.inner.2, true, v.key());
             v.inner
                 .2
                 .write()
@@ -364,6 +378,8 @@ where
                 .unwrap();
         }
         for Edge(v, _, _) in self.iter_in() {
+            #[cfg(gdsl_verif)]
+            crate::verif_hook::lock_point(&v.inner.2, true, v.key());
             v.inner
                 .2
                 .write()
@@ -371,7 +387,11 @@ where
                 .remove_outbound(self.key())
                 .unwrap();
         }
+        #[cfg(gdsl_verif)]
+        crate::verif_hook::lock_point(&self.inner.2, true, self.key());
         self.inner.2.write().unwrap().clear_outbound();
+        #[cfg(gdsl_verif)]
+        crate::verif_hook::lock_point(&self.inner.2, true, self.key());
         self.inner.2.write().unwrap().clear_inbound();
     }
 
@@ -392,6 +412,8 @@ where
     /// assert!(!n2.is_root());
     /// ```
     pub fn is_root(&self) -> bool {
+        #[cfg(gdsl_verif)]
+        crate::verif_hook::lock_point(&self.inner.2, false, self.key());
         self.inner.2.read().unwrap().len_inbound() == 0
     }
 
@@ -412,6 +434,8 @@ where
     /// assert!(n2.is_leaf());
     /// ```
     pub fn is_leaf(&self) -> bool {
+        #[cfg(gdsl_verif)]
+        crate::verif_hook::lock_point(&self.inner.2, false, self.key());
         self.inner.2.read().unwrap().len_outbound() == 0
     }
 
@@ -477,6 +501,8 @@ where
     /// assert!(n1.find_outbound(&4).is_none());
     /// ```
     pub fn find_outbound(&self, other: &K) -> Option<Node<K, N, E>> {
+        #[cfg(gdsl_verif)]
+        crate::verif_hook::lock_point(&self.inner.2, false, self.key());
         let edge = self.inner.2.read().unwrap();
         let edge = edge.find_outbound(other);
         edge.map(|edge| edge.0.upgrade().unwrap())
@@ -503,6 +529,8 @@ where
     /// assert!(n1.find_inbound(&4).is_none());
     /// ```
     pub fn find_inbound(&self, other: &K) -> Option<Node<K, N, E>> {
+        #[cfg(gdsl_verif)]
+        crate::verif_hook::lock_point(&self.inner.2, false, self.key());
         let edge = self.inner.2.read().unwrap();
         let edge = edge.find_inbound(other);
         edge.map(|edge| edge.0.upgrade().unwrap())
@@ -795,6 +823,8 @@ where
     type Item = Edge<K, N, E>;
 
     fn next(&mut self) -> Option<Self::Item> {
+        #[cfg(gdsl_verif)]
+        crate::verif_hook::lock_point(&self.node.inner.2, false, self.node.key());
         match self
             .node
             .inner
@@ -835,6 +865,8 @@ where
     type Item = Edge<K, N, E>;
 
     fn next(&mut self) -> Option<Self::Item> {
+        #[cfg(gdsl_verif)]
+        crate::verif_hook::lock_point(&self.node.inner.2, false, self.node.key());
         match self.node.inner.2.read().unwrap().get_inbound(self.position) {
             Some(current) => {
                 self.position += 1;
